@@ -85,6 +85,7 @@ type c10Run struct {
 	failTok     int
 	cls, what   string
 	hung        bool
+	bootHold    func(bool)
 	preloadWant int // store calls expected once the preload workers are finished
 	abandoned   map[int]bool
 }
@@ -313,9 +314,9 @@ func (x *c10Run) restart(tok int, t string) error {
 	x.mu.Unlock()
 	_, stErr := os.Stat(x.state)
 	haveState := stErr == nil
-	hidden := x.state + ".hidden"
 	if (parts[1] == "0" || parts[1] == "2") && haveState {
-		os.Rename(x.state, hidden)
+		// the state file is not readable at this start (removed); start-up writes a fresh one
+		os.Remove(x.state)
 	}
 	if parts[1] == "2" {
 		// a state file that is not for this index (one byte too long, every bit set): must be rejected by its length
@@ -363,13 +364,11 @@ func (x *c10Run) restart(tok int, t string) error {
 		calls, _ := x.st.counters()
 		x.preloadWant = calls + strings.Count(c10Bits(b, len(x.idx.Chunks)), "1")
 	}
+	// the preload workers are held at the yield point until NewSparseFile has returned, so that the state it
+	// writes at the end is the blank one in every run (otherwise it may already contain the first preloaded chunks)
+	x.bootHold(true)
 	err := x.start(opt)
-	if parts[1] == "2" {
-		os.Remove(x.state)
-	}
-	if (parts[1] == "0" || parts[1] == "2") && haveState {
-		os.Rename(hidden, x.state)
-	}
+	x.bootHold(false)
 	if err != nil {
 		return fmt.Errorf("NewSparseFile: %v", err)
 	}
@@ -420,11 +419,28 @@ func c10Run1(a vh.Args, c *c10Case) (obs string, x *c10Run, err error) {
 	defer x.closeHandles()
 	var armed bool
 	var hookMu sync.Mutex
+	var boot chan struct{}
+	x.bootHold = func(on bool) {
+		hookMu.Lock()
+		defer hookMu.Unlock()
+		if on {
+			boot = make(chan struct{})
+		} else if boot != nil {
+			close(boot)
+			boot = nil
+		}
+	}
 	desync.VerifSetYieldHook(func(site string) {
 		if site != "sparse.written" {
 			return
 		}
 		hookMu.Lock()
+		if boot != nil {
+			ch := boot
+			hookMu.Unlock()
+			<-ch
+			return
+		}
 		if !armed {
 			hookMu.Unlock()
 			return
@@ -582,6 +598,13 @@ func c10Project(ans string) string {
 func c10Check(a vh.Args, o *vh.Oracle, r *vh.Result, c *c10Case) error {
 	obs, x, err := c10Run1(a, c)
 	if err != nil {
+		if x != nil && strings.HasPrefix(err.Error(), "NewSparseFile:") {
+			// start-up refused the files the earlier incarnations (and the scripted environment) left behind: the
+			// model always starts; keep going with the other cases
+			r.Count("startup-error|"+strings.Join(c.Script, ","), true)
+			r.Fail("corr", "corr:C10/startup-error", err.Error(), c)
+			return nil
+		}
 		return err
 	}
 	c.Got = obs
